@@ -133,6 +133,37 @@ def gen(run):
         f = W.riff(W.chunk(b"VP8X", W.vp8x_payload(W.ANIM | W.ALPHA, 16, 16)) + W.mk(b"ANIM") +
                    W.chunk(b"ANMF", W.anmf_payload(W.chunk(b"ALPH", b"\1" + body) + W.mk(b"VP8 "), w=big, h=big)))
         raw.append((W.case_line("cursor", False, f), "webp-frame-2p48-pixels"))
+    # the same huge frames with a lossless alpha stream that REACHES the sub-image arithmetic: a predictor / colour transform (or a meta
+    # prefix image) whose entropy-coded sub-image has (w / 2^k) x (h / 2^k) pixels - up to 2^44, beyond u32 - behind five single-symbol
+    # prefix codes (zero bits per pixel), then the main image with trivial codes; also VP8X canvases at the 2^32-pixel limit
+    def trivial_codes(bw):
+        for _ in range(5):
+            bw.put(1, 1); bw.put(0, 1); bw.put(0, 1); bw.put(rng.randint(0, 1), 1)      # simple code, one symbol, 1-bit symbol
+
+    def tiny_stream(ttype, bbits, meta):
+        bw = V.BW()
+        if ttype is not None:
+            bw.put(1, 1); bw.put(ttype, 2); bw.put(bbits, 3)
+            bw.put(0, 1)                                  # sub-image: no colour cache
+            trivial_codes(bw)
+        bw.put(0, 1)                                      # no more transforms
+        bw.put(0, 1)                                      # no colour cache
+        if meta is not None:
+            bw.put(1, 1); bw.put(meta, 3)
+            bw.put(0, 1)
+            trivial_codes(bw)
+        else:
+            bw.put(0, 1)
+        trivial_codes(bw)
+        return bw.tobytes()
+    dims = [2**16, 2**18, 2**20, 2**24, 2**24 - 1, 65535, 65537, 46341, 92682]
+    for w in dims:
+        for h in (w, 2**24, 3):
+            for ttype, bbits, meta in ((0, 0, None), (0, 7, None), (1, 0, None), (1, 3, None), (None, 0, 0), (None, 0, 7), (0, 0, 0)):
+                body = tiny_stream(ttype, bbits, meta)
+                f = W.riff(W.chunk(b"VP8X", W.vp8x_payload(W.ANIM | W.ALPHA, 16, 16)) + W.mk(b"ANIM") +
+                           W.chunk(b"ANMF", W.anmf_payload(W.chunk(b"ALPH", b"\1" + body) + W.mk(b"VP8 "), w=w, h=h)))
+                raw.append((W.case_line("cursor", False, f), "webp-huge-frame-structured"))
     for l, s in raw:
         yield l, s
 
